@@ -138,11 +138,11 @@ def readiness(s1: int, s2: int, victim: int, action: int) -> bool:
 
 def takeover(s1: int, s2: int, action: int, which: bool) -> bool:
     """
-    pre: 1 <= s1 <= 2 and 1 <= s2 <= 3 and 0 <= action <= 1
+    pre: 1 <= s1 <= 3 and 1 <= s2 <= 3 and 0 <= action <= 1
     post: _
     """
     hx.begin()
-    st = [PSTATES[hx.concretize_range(s1, 1, 3)], PSTATES[hx.concretize_range(s2, 1, 4)]]
+    st = [(PSTATES + ["out_pre_cea"])[hx.concretize_range(s1, 1, 4) if s1 != 3 else 5], PSTATES[hx.concretize_range(s2, 1, 4)]]
     act = ACTIONS[hx.concretize_range(action, 0, 2)]
     inputs = (s1, s2, action, which)
     try:
@@ -150,10 +150,19 @@ def takeover(s1: int, s2: int, action: int, which: bool) -> bool:
         n, app, p = b.node, b.apps[0], b.peers[0]
         conns = []
         for i in (0, 1):
+            if i == 0 and st[0] == "out_pre_cea":
+                # simultaneous open: our own connection to the peer is still waiting for its CEA
+                c = b.dial(p, "ok")
+                B.drain(c)
+                conns.append(c)
+                continue
             c, s = b.accept("10.0.1.1")
             b.inject(c, B.cer(B.PEER_HOSTS[0], hbh=10 + i, e2e=10 + i))
             B.drain(c)
             conns.append(c)
+        ready_before = app.is_ready.is_set()
+        if any(x.state in B.PEER_READY_STATES for x in conns) and not ready_before:
+            return hx.check(inputs, ("not ready",), ("ready",), "a configured peer has a ready connection but the application reports not ready (before any loss)")
         for i in (0, 1):
             if st[i] == "waiting_dwa":
                 n.send_dwr(conns[i])
@@ -178,14 +187,41 @@ def takeover(s1: int, s2: int, action: int, which: bool) -> bool:
     return hx.holds(inputs, p.connection is None or p.connection is other, obs, "peer.connection references a connection that has ended")
 
 
+def foreign_cea(loss: int) -> bool:
+    """
+    pre: 0 <= loss <= 1
+    post: _
+    """
+    hx.begin()
+    ls = hx.concretize_range(loss, 0, 2)
+    try:
+        h = H.Hist(init="fresh", persistent=False, n_peers=2)
+        n = h.n
+        h.ev_dial("ok")                                   # we dial peer1 ...
+        c = h.newest()
+        h._push(c, B.cea(B.PEER_HOSTS[1], hbh=5, e2e=5).as_bytes())      # ... and the CEA names peer2 as its Origin-Host
+        r0 = invariant(h)
+        if ls == 0:
+            h.ev_gone(c)
+        else:
+            n.close_connection_socket(c, B.DISCONNECT_REASON_UNKNOWN)
+            h.settle()
+        r1 = invariant(h)
+    except Exception as e:
+        return hx.fail((loss,), "raised %s: %s" % (type(e).__name__, str(e)[:80]))
+    return hx.check((loss,), (r1,), ("",), "after the loss of a connection no peer may keep referencing it")
+
+
 def specs(tier, seed, carve):
     import random
     q = tier == "quick"
     rnd = random.Random(seed)
     out = [dict(id="readiness", fn="readiness", params={}, timeout=600,
                 bound="2 peers configured for one application, each in {no connection, ready, awaiting DWA, disconnecting, pre-CE}; then one of them loses its connection (peer gone / node-initiated close / nothing)")]
+    out.append(dict(id="foreign_cea", fn="foreign_cea", params={}, timeout=300,
+                    bound="two configured peers; the connection dialled to peer1 is answered by a CEA carrying peer2's identity, then lost (peer gone / node close)"))
     out.append(dict(id="takeover", fn="takeover", params={}, timeout=600,
-                    bound="one peer with two established connections, each READY or awaiting a DWA (the second also disconnecting); either of them is lost (peer gone / node close)"))
+                    bound="one peer with two connections: the first READY, awaiting a DWA, or our own dialled connection still awaiting its CEA (simultaneous open); the second READY, awaiting a DWA or disconnecting; either of them is lost (peer gone / node close)"))
     ne = len(H.EVENTS)
     for init in ("fresh", "ready_inbound", "ready_outbound"):
         out.append(dict(id="history/%s/d2" % init, fn="history", params={"init": init, "depth": 2, "prefix": []}, timeout=600,
